@@ -80,6 +80,18 @@ FORBIDDEN: List[List[Tuple[str, Any]]] = [
 ]
 
 
+# Valuations standing for an IoU threshold OUTSIDE [0, 1] (`forbIoU` in lean/PEval/Model/MatchKernelsDT.lean).  C01 / C03 / C08
+# speak about thresholds on the mode's scale; what the kernels do with an IoU threshold outside it (today: an assertion in
+# is_better_than) is left open by the texts, so the tables better / resultCorrect / status / cell are compared with their
+# skeletons only on valuations avoiding these conjunctions - in the Lean obligation AND in the witness search below (no
+# witness is ever built from an out-of-quantifier valuation).  The distance classes are not affected.
+FORB_IOU: List[List[Tuple[str, Any]]] = [
+    [(f"mode.is({m})", True), (f"cmp({c}|{thr})", o)]
+    for thr in ("thr", "thr[gt]") for m in ("IOU2D", "IOU3D") for c, o in (("0", "gt"), ("1", "lt"))]
+FORB_OF = {"matchable": FORBIDDEN, "better": FORB_IOU, "resultCorrect": FORB_IOU, "status": FORB_IOU, "cell": FORB_IOU,
+           "labelCorrect": []}
+
+
 # ----------------------------------------------------------------------------- symbolic inputs
 
 class SymCmp(Stub):
@@ -990,7 +1002,7 @@ def table_disagreements(key: str, limit=600, per_class=60):
     if "tree" not in ent:
         return []
     if "diff" not in ent:
-        forb = FORBIDDEN if key == "matchable" else []
+        forb = FORB_OF.get(key, [])
         d = dt.diff_trees(ent["tree"], model_tree(key), forb, limit=limit, per_class=per_class)
         d = [x for x in d if x[2] != "#unreachable"]
         d.sort(key=lambda x: (not (x[1].startswith(("ret:", "other:")) and x[2].startswith(("ret:", "other:"))), len(x[0])))
